@@ -2,6 +2,8 @@
 Export of textX based models and metamodels to dot file.
 """
 
+import os
+from contextlib import contextmanager, suppress
 from dataclasses import dataclass
 from typing import Dict, Iterable, List, Union
 from typing import Optional as Opt
@@ -298,8 +300,26 @@ set namespaceSeparator .
         return f"{base.fqn} <|-- {special.fqn}\n"
 
 
+@contextmanager
+def _open_output_file(file_name):
+    """
+    Opens a temporary file next to `file_name` for writing. The target file is
+    replaced only after everything has been written successfully, so a failed
+    export never leaves a partially written (or truncated) target behind.
+    """
+    tmp_file_name = f"{file_name}.tmp"
+    try:
+        with open(tmp_file_name, "w", encoding="utf-8") as f:
+            yield f
+        os.replace(tmp_file_name, file_name)
+    except BaseException:
+        with suppress(OSError):
+            os.remove(tmp_file_name)
+        raise
+
+
 def metamodel_export(metamodel, file_name, renderer=None):
-    with open(file_name, "w", encoding="utf-8") as f:
+    with _open_output_file(file_name) as f:
         metamodel_export_tofile(metamodel, f, renderer)
 
 
@@ -406,7 +426,7 @@ def model_export(model, file_name, repo=None):
     Returns:
         Nothing
     """
-    with open(file_name, "w", encoding="utf-8") as f:
+    with _open_output_file(file_name) as f:
         model_export_to_file(f, model, repo)
 
 
